@@ -127,17 +127,19 @@ abbrev Env := List (Nat × Term)
 
 def bind (e : Env) (v : Nat) (t : Term) : Env := (v, t) :: e
 
-def resolveAux (e : Env) : Nat → Term → Term
+/-- `Env.Resolve`: follows variable bindings until an unbound variable or a non-variable.
+    The Go loop is unbounded (its `stop` list only guards against variable cycles, which unify never
+    creates); here it takes fuel, `none` = the chain is longer than the fuel. -/
+def resolve (e : Env) : Nat → Term → Option Term
   | fuel + 1, .var v =>
     match e.lookup v with
-    | some t => resolveAux e fuel t
-    | none => .var v
-  | _, t => t
-
-/-- `Env.Resolve`: follows variable bindings until an unbound variable or a non-variable.
-    A chain visits each bound variable at most once (unify never creates variable cycles), so
-    `e.length + 1` steps are enough. -/
-def resolve (e : Env) (t : Term) : Term := resolveAux e (e.length + 1) t
+    | some t => resolve e fuel t
+    | none => some (.var v)
+  | 0, .var v =>
+    match e.lookup v with
+    | some _ => none
+    | none => some (.var v)
+  | _, t => some t
 
 mutual
   /-- `Env.unify(x, y, false)`.  `none` = out of fuel.  As in Go the environment returned on
@@ -145,16 +147,17 @@ mutual
   def unify (e : Env) : Nat → Term → Term → Option (Env × Bool)
     | 0, _, _ => none
     | fuel + 1, x, y =>
-      match resolve e x, resolve e y with
-      | .var a, y' => if Term.var a = y' then some (e, true) else some (bind e a y', true)
-      | .app f as, .var b => some (bind e b (.app f as), true)
-      | .app f as, .app g bs =>
+      match resolve e fuel x, resolve e fuel y with
+      | some (.var a), some y' => if Term.var a = y' then some (e, true) else some (bind e a y', true)
+      | some (.app f as), some (.var b) => some (bind e b (.app f as), true)
+      | some (.app f as), some (.app g bs) =>
         if f ≠ g then some (e, false)
         else if as.length ≠ bs.length then some (e, false)
         else unifyArgs e fuel as bs
-      | .app _ _, _ => some (e, false)
-      | x', .var b => some (bind e b x', true)
-      | x', y' => some (e, decide (x' = y'))
+      | some (.app _ _), some _ => some (e, false)
+      | some x', some (.var b) => some (bind e b x', true)
+      | some x', some y' => some (e, decide (x' = y'))
+      | _, _ => none
   def unifyArgs (e : Env) : Nat → Args → Args → Option (Env × Bool)
     | 0, _, _ => none
     | _ + 1, .nil, .nil => some (e, true)
